@@ -286,7 +286,8 @@ func (e *Exec) dispatch(st *State, fr *Frame, ci *callInfo, retTo ssa.Value, mod
 		return succ, false
 	}
 	// 3. inline repository functions (and synthetic wrappers)
-	if ci.fn != nil && len(ci.fn.Blocks) > 0 && (isRepoPkg(pkgOf(ci.fn)) || ci.fn.Synthetic != "") && len(st.frames) < maxInlineDepth && !onStack(st, ci.fn) {
+	foreignInstance := ci.fn != nil && ci.fn.Origin() != nil && !isRepoPkg(pkgOf(ci.fn.Origin())) // instance of a library generic: its body works on type parameters
+	if ci.fn != nil && len(ci.fn.Blocks) > 0 && (isRepoPkg(pkgOf(ci.fn)) || ci.fn.Synthetic != "") && !foreignInstance && len(st.frames) < maxInlineDepth && !onStack(st, ci.fn) {
 		e.inlined[fnKey(ci.fn)] = true
 		nf := e.newFrame(st, ci.fn, ci.args, ci.bind)
 		nf.retTo = retTo
